@@ -136,6 +136,9 @@ func (r *Run) opAuthorize(st Step) {
 	if g := st.p("grant"); g != "" {
 		con.Scopes = splitNonEmpty(g)
 	}
+	if ga, ok := st.P["grant_aud"]; ok {
+		con.PartialAud, con.Audiences = true, splitNonEmpty(ga)
+	}
 	fmt.Sscanf(st.p("auth_ago"), "%d", &con.AuthAgo)
 	hintSubject := ""
 	if h := st.p("hint"); h != "" {
@@ -285,7 +288,17 @@ func (r *Run) afterAuthorize(st Step, cs *ClientSpec, res *Resp, q url.Values, c
 		origin = "implicit"
 	}
 	now := r.now()
-	g := r.L.NewGrant(&Grant{Client: cs.ID, Origin: origin, Subject: con.Subject, Scopes: granted, Audience: splitNonEmpty(q.Get("audience")),
+	grantedAud := splitNonEmpty(q.Get("audience"))
+	if con.PartialAud {
+		var ga []string
+		for _, a := range grantedAud {
+			if has(con.Audiences, a) {
+				ga = append(ga, a)
+			}
+		}
+		grantedAud = ga
+	}
+	g := r.L.NewGrant(&Grant{Client: cs.ID, Origin: origin, Subject: con.Subject, Scopes: granted, Audience: grantedAud,
 		Nonce: q.Get("nonce"), State: q.Get("state"), Redirect: q.Get("redirect_uri"), Challenge: challenge, Method: method, OpenID: has(granted, "openid"),
 		ReqAt: now, Params: map[string]string{"response_type": rtype, "verifier": verifier, "max_age": q.Get("max_age"), "prompt": q.Get("prompt")}})
 	if con.PresetIDExp > 0 {
